@@ -28,7 +28,14 @@ def one(sid):
         res.update(demo_clean_exit=r0.returncode, unit_tests=(t.stdout.strip().splitlines() or ["?"])[-1], demo_changed_exit=r1.returncode, checks={})
         for c in meta["checks"]:
             cmd = [os.path.join(ROOT, "check"), c, "--tier", os.environ.get("TIER", "quick")] + (["--seed", os.environ["SEED"]] if os.environ.get("SEED") else [])
-            r = subprocess.run(cmd, env=dict(os.environ, LABELLA_REPO=wt), capture_output=True, text=True)
+            alt = os.path.join(d, "alt-" + c)
+            r = subprocess.run(cmd, env=dict(os.environ, LABELLA_REPO=wt, VERIF_ALT=alt), capture_output=True, text=True)
+            rdir = os.path.join(alt, "replays-alt")
+            found = sorted((os.path.getsize(os.path.join(rdir, f)), f) for f in os.listdir(rdir)) if os.path.isdir(rdir) else []
+            for old in [f for f in os.listdir(src) if f.startswith("replay-%s-" % c)]:
+                os.remove(os.path.join(src, old))
+            for k, (_, f) in enumerate(found[:2]):
+                shutil.copy(os.path.join(rdir, f), os.path.join(src, "replay-%s-%d.json" % (c, k)))
             buckets = sorted({l.split(":")[0].split(" ", 1)[1] for l in r.stdout.splitlines() if l.startswith(c + " ") and "seed=" not in l and " " in l.split(":")[0]})
             res["checks"][c] = dict(exit=r.returncode, verdict="caught" if r.returncode == 1 else ("missed" if r.returncode == 0 else "harness-error"), buckets=buckets[:6])
     finally:
